@@ -187,9 +187,13 @@ class Summaries:
         return t
 
     def is_projection(self, fi):
-        """A helper whose result is built from its parameters by attribute reads / tuples only."""
+        """A helper whose result is built from its parameters by attribute reads / tuples / records only."""
+        from .flow import record_fields
+
         t = self.return_term(fi)
         for s in subterms(t):
+            if s[0] == "call" and s[1][0] == "class" and record_fields(self.model, s[1]) is not None:
+                continue  # a NamedTuple record of the package built from the parameters
             if s[0] in ("call", "await", "phi", "unk", "comp", "lambda", "elem", "op"):
                 return False
         return True
@@ -212,9 +216,24 @@ class Summaries:
                     return base[2][i]
                 except Exception:
                     pass
+            if t[2][0] == "const":
+                from .flow import record_field
+
+                try:
+                    fld = record_field(self.model, base, index=int(t[2][1]))
+                except ValueError:
+                    fld = None
+                if fld is not None:
+                    return fld
             return ("idx", base, self.expand(t[2], depth + 1))
         if t[0] in ("attr",):
-            return ("attr", self.expand(t[1], depth + 1), t[2])
+            from .flow import record_field
+
+            base = self.expand(t[1], depth + 1)
+            fld = record_field(self.model, base, t[2])
+            if fld is not None:
+                return fld
+            return ("attr", base, t[2])
         if t[0] in ("elem", "await", "closure"):
             return (t[0], self.expand(t[1], depth + 1))
         if t[0] == "phi":
